@@ -152,7 +152,7 @@ theorem StrandInv.step {s : State} (h : StrandInv s) (hw : WorkerInv s) (st : St
     · exact h
     · rename_i hd
       have hph : s.phase1 = false := by
-        rcases hv.1.2 with hp | hp
+        rcases hv.2 with hp | hp
         · exact hp
         · simp at hp; exact absurd hp hd
       split
@@ -160,7 +160,7 @@ theorem StrandInv.step {s : State} (h : StrandInv s) (hw : WorkerInv s) (st : St
         split
         · -- spawn
           obtain ⟨o1, o2⟩ := outside s.nW (Nat.le_refl _)
-          exact strand_spawn { s with undo := s.undo ++ [{ id := s.nextTask, lvl := levelOf prio, cb := cb }], nextTask := s.nextTask + 1, pend := true } h.fixE h.maxPos h.idleLe h.noLoose o1
+          exact strand_spawn { s with undo := s.undo ++ [{ id := s.nextTask, lvl := levelOf prio, cb := cb }], nextTask := s.nextTask + 1, pend := s.pend + 1 } h.fixE h.maxPos h.idleLe h.noLoose o1
         · rename_i hfull
           refine ⟨h.fixE, h.maxPos, h.idleLe, h.noLoose, fun _ _ e => ?_⟩
           simp only at e hfull
